@@ -121,8 +121,8 @@ class Engine(CoreMixin, ExprMixin, StmtMixin, CallMixin, BuiltinMixin):
                     r, i = z3.Int('hc_r'), z3.Int('hc_i')
                     lst = z3.Select(arr, r)
                     el = L.l_get(ft, lst, i)
-                    self.assume(z3.ForAll([r, i], z3.Implies(z3.And(r > 0, r < c, i >= 0, i < L.l_len(ft, lst)),
-                                                             z3.And(el > 0, el < c)), patterns=[el]))
+                    self.assume(L.forall([r, i], z3.Implies(z3.And(r > 0, r < c, i >= 0, i < L.l_len(ft, lst)),
+                                                            z3.And(el > 0, el < c)), patterns=[el]))
                     continue
                 if not isinstance(inner, (TRef, TPkt)):
                     continue
@@ -136,7 +136,7 @@ class Engine(CoreMixin, ExprMixin, StmtMixin, CallMixin, BuiltinMixin):
                     body = z3.Or(ft.is_none(val), z3.And(ft.val(val) > 0, ft.val(val) < c))
                 else:
                     body = z3.And(val > 0, val < c)
-                self.assume(z3.ForAll([r], z3.Implies(z3.And(r > 0, r < c), body), patterns=[val]))
+                self.assume(L.forall([r], z3.Implies(z3.And(r > 0, r < c), body), patterns=[val]))
         sv = selfv if selfv is not None else (self.frame.locals.get('self') if self.frame else None)
         if sv is not None and isinstance(sv.t, TRef):
             for sc in self.spec.schema_chain(sv.t.cls):
@@ -615,6 +615,9 @@ class Engine(CoreMixin, ExprMixin, StmtMixin, CallMixin, BuiltinMixin):
     def verify(self, fs, case_idx=0):
         case = fs.cases[case_idx]
         self.cur_case = case
+        if fs.timeout_ms:
+            # a contract may ask for a larger per-obligation budget (never a smaller one than the tier's)
+            self.check_timeout_ms = max(self.check_timeout_ms, int(fs.timeout_ms))
         cname = case.get('name')
         self.unit_id = fs.key + ('[%s]' % cname if cname else '')
         res = UnitResult(self.unit_id, fs.key)
